@@ -1,4 +1,5 @@
 import YncaVerif.Lemmas.AcceptProj
+import YncaVerif.Lemmas.AcceptC16
 /-! # The tie itself, as theorems
 
 The B2 correspondence offers every observable trace of the real library to the compiled acceptor
@@ -70,6 +71,25 @@ theorem Tie_C01_observed_texts (P : Params) (hidden : List String) (evs : List (
     simp only [Prod.mk.injEq] at heq
     rw [← heq.2]; exact this
 
+/-- **C16 on the observed trace** (nothing more is written): in every accepted trace (writes and call returns visible), once a
+    `close()` that was begun after the reader thread had been started has returned — `(scan pre).closed`, a plain scan of the events
+    before — no write is observed any more -/
+theorem Tie_C16_observed_no_write_after_close (P : Params) (hidden : List String) (evs : List (Nat × Ev))
+    (hw : hidden.contains "write" = false) (hr : hidden.contains "ret" = false) (h : (accept P hidden evs).accepted = true)
+    (pre rest : List (Nat × Ev)) (tm : Nat) (x : String) (he : evs = pre ++ (tm, Ev.output (.write x)) :: rest) :
+    (scan pre).closed = false := by
+  obtain ⟨s, hs⟩ := accept_sound P hidden evs h
+  have he' : evs = (pre ++ [(tm, Ev.output (.write x))]) ++ rest := by rw [he]; simp
+  obtain ⟨s1, hs1⟩ := hs.prefix _ _ he'
+  obtain ⟨s0, s0', l, hpre, hstep⟩ := hs1.last_write hw pre tm x rfl
+  cases hc : (scan pre).closed with
+  | false => rfl
+  | true =>
+    exfalso
+    have hret := (hpre.scanInv hr).closed hc
+    have hclosed := (after_close_return P s0 hpre.reachable hret).1
+    exact no_write_when_closed P s0 s0' l _ x hclosed hstep rfl
+
 /-! non-vacuity: the acceptor accepts the start of a real session (reader started, two probes 100 ms apart)
 and rejects the same trace with the second probe 50 ms early -/
 def P0 : Params := ⟨100000, 30000000, 2000000, 1000000, 0⟩
@@ -81,5 +101,7 @@ def bad : List (Nat × Ev) :=
 
 example : (accept P0 hid good).accepted = true ∧ (accept P0 hid bad).accepted = false := by decide +kernel
 example : (traceWrites good).map (·.1) = [0, 100000] := by decide
+/-- the scan recognises a returned close(): reader started, close() called by thread 10, its return observed -/
+example : (scan [(0, .input .startR), (5, .input (.callClose 10)), (7, .output (.callRet 10))]).closed = true := by decide
 
 end Ynca.Tie
